@@ -218,6 +218,20 @@ func checkNode(ssn *framework.Session, only string, ghostList []Ghost, st map[st
 			}
 		}
 		gpuOnly := map[string]bool{"gpu": true} // whole-GPU idle/releasing also move with shared groups: checked by the rebuild below
+		if ni.HasDRAGPUs && !hasSharedGPU(ni) {
+			// a node whose GPUs are DRA devices hosts no device-plugin / shared GPU pods: the linear closed forms are
+			// exact for the gpu field too (DRA GPUs are charged like whole GPUs, see accOf)
+			gpuOnly = nil
+			st["dra_gpu_node_closed_form_checks"]++
+		}
+		if want, ok := draGpuCapacity(ssn, ni); ok {
+			// GPU capacity of the node recomputed from the API objects: device-plugin GPUs of the node object plus the
+			// devices of its ResourceSlices whose driver is a GPU driver
+			st["dra_gpu_node_capacity_checks"]++
+			if !feq(ni.Allocatable.GPUs(), want) {
+				out = append(out, fmt.Sprintf("node %s Allocatable[gpu]: scheduler has %.6g, recomputed %.6g (device-plugin GPUs + GPU devices of its ResourceSlices)", name, ni.Allocatable.GPUs(), want))
+			}
+		}
 		cmpVec("node "+name+" Used", resVec(ni.Used), used, nil, &out)
 		idle := vec{}
 		idle.add(resVec(ni.Allocatable), 1)
@@ -262,6 +276,15 @@ func checkNode(ssn *framework.Session, only string, ghostList []Ghost, st map[st
 	return out
 }
 
+func hasSharedGPU(ni *node_info.NodeInfo) bool {
+	for _, t := range ni.PodInfos {
+		if t.IsSharedGPUAllocation() || isReservation(t.Pod) {
+			return true
+		}
+	}
+	return false
+}
+
 type nopAffinity struct{ name string }
 
 func (nopAffinity) AddPod(*v1.Pod)                   {}
@@ -274,7 +297,7 @@ func (n nopAffinity) Name() string                   { return n.name }
 // (reservation pods, then non-pipelined, then pipelined - the snapshot's order) and compares it.
 func rebuildNode(ni *node_info.NodeInfo, ghosts []Ghost, st map[string]int) []string {
 	var out []string
-	if ni.Node == nil || ni.HasDRAGPUs {
+	if ni.Node == nil {
 		return nil
 	}
 	// a group that holds only pipelined pods depends on insertion order: skip the whole-GPU comparison then
@@ -304,6 +327,14 @@ func rebuildNode(ni *node_info.NodeInfo, ghosts []Ghost, st map[string]int) []st
 		}
 	}
 	fresh := node_info.NewNodeInfo(ni.Node, nopAffinity{ni.Name}, ni.VectorMap)
+	if ni.HasDRAGPUs {
+		// the snapshot adds the GPU devices of the node's ResourceSlices after constructing the node (populateDRAGPUs):
+		// same here, with the count the scheduler's own Allocatable carries beyond the node object (that count is
+		// compared with the slices separately, see draGpuCapacity)
+		fresh.AddDRAGPUs(ni.Allocatable.GPUs() - fresh.Allocatable.GPUs())
+		fresh.HasDRAGPUs = true
+		st["dra_gpu_node_rebuilds"]++
+	}
 	var first, second, third []*pod_info.PodInfo
 	keys := make([]string, 0, len(ni.PodInfos))
 	byKey := map[string]*pod_info.PodInfo{}
